@@ -11,8 +11,10 @@ ID = "C13"
 MODULE = "PotasscoVerif.Props.C13"
 THEOREMS = ["PotasscoVerif.C13.C13_cmdstring", "PotasscoVerif.C13.C13_cmdstring_parse", "PotasscoVerif.C13.C13_terminator", "PotasscoVerif.C13.C13_long_eq",
             "PotasscoVerif.C13.C13_long_sep", "PotasscoVerif.C13.C13_long_implicit", "PotasscoVerif.C13.C13_short_attached", "PotasscoVerif.C13.C13_short_sep",
-            "PotasscoVerif.C13.C13_flag_group"]
-PARTIAL = {"C13_argv (whole lists)/C13_cfg/negation/positional": "the composition of the spelling lemmas over whole occurrence lists, --no-name, positional tokens and config files "
+            "PotasscoVerif.C13.C13_flag_group", "PotasscoVerif.C13.C13_argv", "PotasscoVerif.C13.C13_argv_loop"]
+EXTRA_MODULES = ["PotasscoVerif.Props.C13b"]
+PARTIAL = {"C13_cfg / negation / unknown long options / groups ending in a value option": "C13_argv covers whole lists spelled as --name=value, --name value, --name (implicit), -avalue, -a value, "
+           "grouped flags, positional tokens, unknown short options and the '--' tail; --no-name, unknown long options, flag groups that end in a value-taking alias, argc/argv rewriting and config files "
            "are decided by correspondence and the intended-list oracle"}
 BSIZES = (4096,)
 RULE = ("contexts of 2..8 options (required-argument / implicit-value / flag kinds, optional one-character alias, negatable flags, names sharing prefixes); intended lists of 0..8 "
@@ -21,12 +23,13 @@ RULE = ("contexts of 2..8 options (required-argument / implicit-value / flag kin
         "distinct = distinct cases; non-trivial = at least 3 occurrences")
 TRUSTED = ["std::isspace in the C locale (blank, \\t..\\r)"]
 ASSUMPTIONS = ["option names are made of letters and '-', do not start with 'no-'; values contain no NUL"]
-TECHNIQUE = "Lean 4 theorems on the parser model (tokenizer inverse of quoting, terminator, per-spelling lemmas) + differential correspondence with the real parsers + intended-list oracle"
+TECHNIQUE = "Lean 4 theorems on the parser model (whole argument lists in mixed spellings parse to the intended pairs; tokenizer inverse of quoting; terminator) + differential correspondence with the real parsers + intended-list oracle"
 LEVEL_TEXT = ("C13_cmdstring(_parse): for EVERY token list (any bytes but NUL: blanks, quotes, backslashes, empty tokens) tokenizing the quoted command string gives back the tokens, so "
               "string parsing equals argv parsing; C13_terminator: after '--' everything is left in order; spelling lemmas: --name=value, --name value, --name (implicit), -avalue, "
               "-a value and grouped flags each add exactly the intended (option, value) pair and consume exactly their tokens, given that the key resolves to the option (C14). "
-              "Whole lists in mixed spellings, negation, positional/unknown tokens, argc/argv rewriting and config files are decided by model == real parsers and by the "
-              "intended-list oracle on the implementation.")
+              "C13_argv (Props/C13b.lean): the inductive relation `Sp` generates every way of writing a list of intended pairs, positional tokens, unknown short options and a '--' tail in any mixture of these spellings; "
+              "for EVERY such token list of any length the parser returns exactly the intended pairs in order and leaves exactly the intended tokens in order. "
+              "Negation, unknown long options, argc/argv rewriting and config files are decided by model == real parsers and by the intended-list oracle on the implementation.")
 LEVEL_NOTE = ("Partial proof + correspondence (~6k quick / 150k thorough cases, each run as argv and as quoted command string, plus config files). Trusted: Lean kernel+axioms, "
               "std::isspace C locale, harness, generator/oracle in props/c13.py.")
 
